@@ -4,7 +4,7 @@ from props.util import *
 rule = ("for each of the 22 indicators and parameter choices with periods 1..4 (plus sampled larger): slot 0 gets a history of "
         "next/reset ops over an alphabet with ties, NaN, +-inf, extreme values (exhaustive op-tries to the tier's depth plus random "
         "deep histories), is probed, reset (once or twice), probed again and then fed >= period+2 finite inputs in lock-step with a "
-        "freshly constructed instance in slot 1; also reset on a fresh instance. Non-trivial: distinct case whose history fed at "
+        "freshly constructed instance in slot 1; also reset on a fresh instance; plus lives of 1021, 4093 and 65533 inputs before the reset (seed-independent; the longest on the implementation only). Non-trivial: distinct case whose history fed at "
         "least one input before the reset")
 assumptions = ["continuations are finite values (the property quantifies non-finite values over the prior history only)"]
 
@@ -58,6 +58,22 @@ def gen_cases(ctx):
                     ops.append((o[0], 1) + tuple(o[2:]))
                 cases.append(Case("%s_g%d_%d_%d_%d_h%d" % (ind, gi, pr[0], pr[1], pr[2], hi), ops, dump=(0, 1),
                                   meta={"ind": ind, "params": pr[:3], "hist_feeds": sum(1 for o in h if o[0] in "nbi")}))
+    # seed-independent long lives before the reset: 2^10 - 3, 2^12 - 3 and 2^16 - 3 inputs (a maintenance counter that reset() forgets
+    # fires during the warm-up of the new life), period 10; the longest on the implementation only
+    for ind in ALL:
+        for nh in (1021, 4093, 65533):
+            if nh > 60000 and ind in ("MAD", "CCI", "ER") and not ctx.thorough:
+                pass
+            pr = long_params(ind, 10)
+            h = long_feed(ind, nh)
+            cont = [(o[0], 0) + tuple(v * 0.5 if (o[0] == "n" or i_ < 4) else v for i_, v in enumerate(o[2:])) for o in long_feed(ind, 34)]
+            ops = [new_op(0, ind, pr)] + h + [("d", 0), ("r", 0), ("d", 0), new_op(1, ind, pr)]
+            for o in cont:
+                ops += [o, (o[0], 1) + tuple(o[2:])]
+            meta = {"ind": ind, "params": pr[:3], "hist_feeds": nh}
+            if nh > 60000:
+                meta["harness_only"] = True
+            cases.append(Case("%s_longlife_%d" % (ind, nh), ops, dump=(0, 1) if nh < 60000 else (), meta=meta))
     return cases
 
 
